@@ -294,7 +294,7 @@ class Usb2Crc16Exhaustive(Sub):
     budget = {"quick": 0, "thorough": 0}
     exhaustive = True
     LANES = 64
-    rule = ("USBDataPacketCRC._generate_next_crc over all 2^16 states x 2^8 data bytes (64 data lanes evaluated per "
+    rule = ("thorough tier only: USBDataPacketCRC._generate_next_crc over all 2^16 states x 2^8 data bytes (64 data lanes evaluated per "
             "simulated cycle) compared with the bit-serial x^16+x^15+x^2+1 LFSR; a case = 256 states x 256 bytes; "
             "every case is non-trivial")
 
@@ -326,7 +326,7 @@ class Usb2Crc16Exhaustive(Sub):
         # the reference below is the plain bit-serial LFSR per (state, byte).
 
     def enumerate(self, tier):
-        return [dict(hi=k) for k in range(256)]
+        return [dict(hi=k) for k in range(256)] if tier == "thorough" else None
 
     def strategy(self):
         return st.fixed_dictionaries(dict(hi=st.integers(0, 255)))
@@ -350,6 +350,17 @@ class Usb2Crc16Exhaustive(Sub):
                     return fail(f"usb2-crc16 step: state {s:#06x} data {base + i:#04x}: expected {exp:#06x} got "
                                 f"{got:#06x}", signature="step-mismatch-usb2-crc16")
         return Result(ok=True, nontrivial=True, labels=("block",))
+
+
+class Usb2Crc16Stripe(Usb2Crc16Exhaustive):
+    name = "usb2-crc16-step-stripe"
+    exhaustive = False
+    rule = ("quick-tier stripe of the exhaustive USB2 CRC16 step pass: the 32 state blocks hi = 5, 13, 21, ... (8192 "
+            "states x all 256 data bytes = 2^21 of the 2^24 pairs); the full enumeration runs in the thorough tier; "
+            "every case is non-trivial")
+
+    def enumerate(self, tier):
+        return [dict(hi=k) for k in range(5, 256, 8)] if tier == "quick" else None
 
 
 _H = {}
@@ -549,5 +560,6 @@ class WalkUsb3Crc32(Sub):
         return Result(ok=True, nontrivial=nt, labels=tuple(sorted(labels)))
 
 
-SUBS = [Crc5Exhaustive(), TokenAccept(), StepBasis(), StepRandom(), Usb2Crc16Exhaustive(), WalkUsb2Crc16(),
+SUBS = [Crc5Exhaustive(), TokenAccept(), StepBasis(), StepRandom(), Usb2Crc16Exhaustive(), Usb2Crc16Stripe(),
+        WalkUsb2Crc16(),
         WalkUsb3Crc16(), WalkUsb3Crc32()]
